@@ -66,7 +66,9 @@ JudgeWFromFloat(e, i) ==
 JudgeWLimits(e, i) ==
     LET t == i.lt  s == WS(t)
         hi == Sub(Pow2(t.d), One)
-    IN [d |-> (IF J(e.hi) = hi /\ e.digits = t.d /\ (IF s THEN Lt(J(e.lo), Zero) /\ Le(Neg(Add(hi, One)), J(e.lo)) ELSE IsZero(J(e.lo)))
+        \* the storage must hold every value of the declared digits (one more bit for the sign)
+        roomy == WN(t) >= t.d + (IF s THEN 1 ELSE 0)
+    IN [d |-> (IF ~roomy THEN "storage_narrower_than_digits" ELSE IF J(e.hi) = hi /\ e.digits = t.d /\ (IF s THEN Lt(J(e.lo), Zero) /\ Le(Neg(Add(hi, One)), J(e.lo)) ELSE IsZero(J(e.lo)))
                THEN "ok" ELSE "wrong_limits"),
         nt |-> TRUE, cls |-> WCls(e, i)]
 \* decimal text: the canonical numeral
